@@ -40,6 +40,24 @@ NEEDS = {
  "C18-overwrite-at-zero-saturating-guard": "write_bytes_at(bytes, 0) with bytes.len() > writer.len()",
  "C19-global-strict-reserved-switch": "an AVP with a reserved header flag bit, and both reserved=Yes and reserved=No in use in the process (call sequence or thread interleaving)",
  "C20-bare-error-type-not-read": "Result Code AVP with exactly 4 payload octets and an error type outside 0..=8, not in first position",
+ "C01-control-length-u16-add-overflow": "control message decoded from a byte string of at least 65536 octets (e.g. a whole 64 KiB receive buffer)",
+ "C02-reveal-chunk-granular-bound": "hidden value of exactly 16n octets whose first two octets decrypt to 16n+5 or 16n+6",
+ "C03-resultcode-msg-fffd-rejected": "Result Code error message containing the code point U+FFFD",
+ "C04-data-length-patched-at-absolute-2": "data message with a length field written into a writer that already holds earlier output",
+ "C05-data-header-length-u16-wrap": "data message with L and O, Offset Size >= 65526 (buffer beyond 64 KiB) and a small Length",
+ "C06-length-member-12-drops-avps": "control message with at least one AVP whose ignored length member is exactly 12",
+ "C07-writer-default-method-native-endian": "control message or hide through a Writer other than VecWriter that relies on the trait's provided method, on a little-endian host",
+ "C08-control-guard-len-as-u16": "control message decoded while at least 65536 octets remain in the reader after its header, with (P + trailing) mod 65536 < P",
+ "C09-backpatch-skipped-when-length-equals-end": "control message written at writer offset k > 0 whose stale length member equals exactly k plus its true length",
+ "C10-encoder-refuses-exactly-65535": "an accepted control message whose canonical re-encoding is exactly 65535 octets",
+ "C11-scratch-buffer-241-250-secret-panics": "shared secret of 241-250 octets and a hidden value of at least two blocks",
+ "C12-scratch-buffer-241-250-secret-truncates": "shared secret of 241-250 octets and a hidden value of at least two blocks, compared with an independent construction",
+ "C13-resultcode-all-nul-message-panics": "hidden Result Code whose error message consists only of NUL octets",
+ "C14-try-read-skips-optional-vendor-avps": "Message::try_read (not try_read_validate) on a control message holding a vendor-specific AVP with the M bit clear",
+ "C15-greedy-stops-after-256-records": "control message with at least 257 AVP records and something to report at record index >= 256",
+ "C18-bytes-position-plus-length-overflow": "bytes(n) with n > usize::MAX - position on a reader that has been advanced",
+ "C19-secret-prefix-memo-keyed-by-address": "two multi-block hide/reveal calls on one thread whose secret slices have the same address and length but different contents",
+ "C20-q931-dangling-lead-octet-accepted": "Q.931 Cause Code advisory that is valid UTF-8 except for an unfinished lead sequence at the very end",
 }
 for m in glob.glob(os.path.join(ROOT, "seeded", "*", "meta.json")):
     d = json.load(open(m))
